@@ -10,4 +10,5 @@ CONSTANTS
   Direct = FALSE
   MidCrash = TRUE
   Timeouts = FALSE
+  MaxWriteFaults = 0
 PROPERTY RestartCoversLearned
